@@ -50,12 +50,20 @@ func (pc *propCheck) getModel(o *Obligation) string {
 	mf := o.File + ".model.smt2"
 	os.WriteFile(mf, append(q, []byte("(get-model)\n")...), 0o644)
 	for _, sp := range []solverSpec{solvers[0], solvers[1]} {
-		st, out, _ := runOne(context.Background(), sp, mf, 10)
+		st, out, _ := runOne(context.Background(), sp, mf, 5)
 		if st == "sat" {
 			return out
 		}
 	}
 	return ""
+}
+
+func (pc *propCheck) hasLibraryHarness(con *Contract) bool {
+	if con == nil {
+		return false
+	}
+	_, err := os.Stat(filepath.Join(verifDir, "replay", filepath.Base(con.Pkg)+"_replay_test.go"))
+	return err == nil
 }
 
 // replayLibrary runs the package's replay harness for the function of obligation o.
